@@ -80,6 +80,8 @@ def restate(dev_spec, o, drive, lu, fu, cu):
         A["current"] = A["current"] * CSC[cu]
         A["radius"] = A["radius"] * LSC[lu]
         A["center"] = [x * LSC[lu] for x in A["center"]]
+    if dr.get("epsilon", {}).get("kind") in ("spatial", "spatial_novec", "time"):
+        dr["epsilon"]["L"] = LSC[lu]
     c = dr.get("currents", {})
     if "values" in c:
         c["values"] = {k: v * CSC[cu] for k, v in c["values"].items()}
